@@ -7,7 +7,9 @@
    map k1,v1,k2,v2..) and the name of the callback family. *)
 EXTENDS Integers, Sequences, FiniteSets
 Pred(fam, c, v) == CASE fam = "eq" -> v = c [] fam = "ne" -> v # c [] fam = "gt" -> v > c [] OTHER -> FALSE
-Equiv(fam, x, y) == IF fam = "mod2" THEN x % 2 = y % 2 ELSE x = y
+Equiv(fam, x, y) == CASE fam = "mod2" -> x % 2 = y % 2
+                      [] fam = "near" -> x - y <= 1 /\ y - x <= 1      \* not transitive: the definitions must not assume an equivalence
+                      [] OTHER -> x = y
 KeyOfV(fam, v) == CASE fam = "mod2" -> v % 2 [] fam = "id" -> v [] OTHER -> 0
 Conv(fam, v) == IF fam = "neg" THEN 0 - v ELSE v * 10
 Acc(fam, st, v) == IF fam = "rec" THEN Append(st, v) ELSE <<10 * st[1] + v>>   \* "dec": state kept as a 1-tuple
